@@ -56,7 +56,14 @@ def main():
     if missing and not errors:
         chk.machinery_failure("%d verdicts missing, e.g. %r" % (len(missing), sorted(missing)[:3]))
     # only the differential clauses are C03's; disagreement with the source semantics is reported by C01/C02
-    diff = {k: v for k, v in verdicts.items() if v[3].startswith("diff-") or v[3] in ("ok", "inconclusive")}
+    # (the last verdict field is the differential clause on its own: it is judged even when the text also disagrees with the source)
+    diff = {}
+    for k, v in verdicts.items():
+        d = v[10] if len(v) > 10 else ""
+        if d.startswith("diff-"):
+            diff[k] = v[:3] + [d] + v[4:]
+        elif v[3] in ("ok", "inconclusive") or v[3].startswith("diff-"):
+            diff[k] = v
     streams.judge_refinement(chk, "C03", entries, metas, diff,
                              classify=lambda e, ms, k, v: findings.classify_a3(e, ms, k))
     chk.cov["traces_validated_against_impl"] = len(progs) + ncompiled
